@@ -1,7 +1,9 @@
 import logging
 import multiprocessing
 import multiprocessing.queues
+import multiprocessing.reduction
 import os
+import pickletools
 import queue
 import threading
 from collections.abc import Iterable, Iterator
@@ -67,6 +69,32 @@ class _SimpleProcessQueue(multiprocessing.queues.SimpleQueue):
             # (nothing has been written to the pipe). Fail this request only,
             # rather than the thread or worker that is passing it on.
             super().put((obj[0], RemoteException(e)))
+
+    def get(self):
+        # The standard `get`, except for the error handling.
+        with self._rlock:
+            res = self._reader.recv_bytes()
+        try:
+            return multiprocessing.reduction.ForkingPickler.loads(res)
+        except Exception as e:
+            # The message has arrived but can not be rebuilt in this process, e.g.
+            # a result whose class refuses the pickled state. If it is a
+            # `(request ID, value)` message, the ID is the first object in the pickle;
+            # fail this request only, rather than the thread or worker that is
+            # reading the queue (and with it every other request).
+            uid = None
+            try:
+                for op, arg, _ in pickletools.genops(res):
+                    if op.name in ('PROTO', 'FRAME', 'MARK'):
+                        continue
+                    if isinstance(arg, int) and not isinstance(arg, bool):
+                        uid = arg
+                    break
+            except Exception:
+                pass
+            if uid is None:
+                raise
+            return (uid, RemoteException(e))
 
 
 class _SimpleThreadQueue(queue.SimpleQueue):
